@@ -6,7 +6,7 @@ patch=$1; name=$2; shift 2
 wt=/tmp/negeval-$name
 git -C /repo worktree remove --force $wt 2>/dev/null
 git -C /repo worktree add -q --detach $wt HEAD || exit 2
-if ! git -C $wt apply "$patch"; then echo "PATCH DOES NOT APPLY"; git -C /repo worktree remove --force $wt; exit 2; fi
+if ! git -C $wt apply "$patch" 2>/dev/null && ! (cd $wt && git checkout -q -- . && patch -p1 -F3 -s --no-backup-if-mismatch < "$patch" >/dev/null 2>&1 && ! find . -name "*.rej" | grep -q .); then echo "PATCH DOES NOT APPLY"; git -C /repo worktree remove --force $wt; exit 2; fi
 checks=${*:-$(python3 -c "import json;print(' '.join(sorted(json.load(open('/verif/checks.json')))))")}
 for c in $checks; do
   out=$(VERIF_REPO=$wt VERIF_OUT_DIR=/tmp/negeval-$name.out /verif/vcheck run $c quick 2>&1); rc=$?
